@@ -100,6 +100,15 @@ def run_case(case):
         else:
             files.append((nm, data))
         fattrs.append(dirrun.attrs(pel, nm, data))
+    if rng.random() < .3:
+        # subdirectories (two or three, one of them empty, one holding a log under the name of a top-level one):
+        # the modes look at the files directly in the directory only
+        for j, sub in enumerate(rng.sample(['archive', '0dir', 'zdir', 'Mid'], rng.choice([2, 3]))):
+            if j == 1:
+                files.append((sub + '/.keep_dir', ('mkdir', None)))
+            else:
+                other = bytes(__import__('harness.encode', fromlist=['encode']).encode(dirrun.mk_pel(rng, 0x5F0000C1 + j)))
+                files.append((sub + '/' + (names[0] if names and j == 0 else 'inner_5F0000C%d' % j), other))
     dirrun.write_dir(d, files)
     sw = [rng.random() < p for p in (.15, .3, .3, .3, .25, .35)]
     o = dict(every=sw[0], sv=sw[1], nsv=sw[2], hid=sw[3], term=sw[4], only=sw[5],
